@@ -50,6 +50,44 @@ const Preamble = `(set-option :produce-models true)
 (define-fun gmod ((a Int) (b Int)) Int (- a (* b (gdiv a b))))
 `
 
+// ConcreteMD5 records digests computed natively on concrete messages, so that
+// symbolic hashes can be related to them (injective model).
+type ConcreteDigest struct {
+	Msg    []byte
+	Digest [16]byte
+}
+
+var (
+	ConcreteMD5   []ConcreteDigest
+	concreteMD5By = map[[16]byte]int{}
+)
+
+func NoteConcreteMD5(msg []byte, d [16]byte) {
+	if _, ok := concreteMD5By[d]; ok {
+		return
+	}
+	concreteMD5By[d] = len(ConcreteMD5)
+	ConcreteMD5 = append(ConcreteMD5, ConcreteDigest{append([]byte(nil), msg...), d})
+}
+
+// LookupConcreteMD5 returns the message of a known digest.
+func LookupConcreteMD5(d [16]byte) ([]byte, bool) {
+	i, ok := concreteMD5By[d]
+	if !ok {
+		return nil, false
+	}
+	return ConcreteMD5[i].Msg, true
+}
+
+func digestLit(d [16]byte) string {
+	var sb strings.Builder
+	sb.WriteString("#x")
+	for i := 15; i >= 0; i-- {
+		fmt.Fprintf(&sb, "%02x", d[i])
+	}
+	return sb.String()
+}
+
 // Printer emits SMT-LIB2 definitions for a DAG of terms exactly once per
 // solver scope.
 type Printer struct {
@@ -232,6 +270,25 @@ func (p *Printer) emit(t *T) {
 			}
 			p.md5Msgs[k] = t.Args
 			fmt.Fprintf(b, "(declare-const md5_%d (_ BitVec 128))\n", k)
+			// injectivity against digests of concrete messages
+			for _, cd := range ConcreteMD5 {
+				if len(cd.Msg) != len(t.Args) {
+					fmt.Fprintf(b, "(assert (distinct md5_%d %s))\n", k, digestLit(cd.Digest))
+					continue
+				}
+				var eqs []string
+				for i := range cd.Msg {
+					eqs = append(eqs, fmt.Sprintf("(= %s (_ bv%d 8))", args[i], cd.Msg[i]))
+				}
+				switch len(eqs) {
+				case 0:
+					fmt.Fprintf(b, "(assert (= md5_%d %s))\n", k, digestLit(cd.Digest))
+				case 1:
+					fmt.Fprintf(b, "(assert (= (= md5_%d %s) %s))\n", k, digestLit(cd.Digest), eqs[0])
+				default:
+					fmt.Fprintf(b, "(assert (= (= md5_%d %s) (and %s)))\n", k, digestLit(cd.Digest), strings.Join(eqs, " "))
+				}
+			}
 			// injectivity against every live earlier hash
 			for _, j := range p.md5Order {
 				other := p.md5Msgs[j]
